@@ -152,3 +152,55 @@ func ZZC10Funcs() {
 	}
 	zzWitness("end")
 }
+
+
+// ZZC10LoopExit: every way of leaving a loop of every kind whose body
+// shadows an outer variable — running to completion, break, break inside a
+// nested if, return from the enclosing function — at top level, inside a
+// block and inside a function: after the loop the outer variable is visible
+// again with its own value, and a variable declared after the loop is an
+// ordinary variable of the enclosing scope (visible to functions when global).
+func ZZC10LoopExit() {
+	heads := []string{"for i := range 3\n", "for i := range [7 8 9]\n", "for i := range \"abc\"\n", "for i := range {p:1 q:2}\n", "n := 0\nwhile n < 3\n    n = n + 1\n    i := n\n"}
+	head := heads[zzChoice("loop", len(heads))]
+	exits := []string{"", "    break\n", "    if c\n        break\n    end\n", "    if !c\n        break\n    end\n"}
+	exit := exits[zzChoice("exit", len(exits))]
+	place := zzChoice("place", 3) // 0 top level, 1 inside an if block, 2 inside a function
+	x, c := zzFloat64("x"), zzBool("c")
+	loop := head + "    print \"in\" i x\n    x := 50\n    print \"shadow\" x\n" + exit + "end\n"
+	after := "print \"after\" x\nlate := x + 1\nshow\nprint late\n"
+	var src string
+	switch place {
+	case 0:
+		src = "x := 1\nc := true\n" + loop + after
+	case 1:
+		src = "x := 1\nc := true\nif true\n" + zzIndentLines(loop+"print \"after\" x\n", "    ") + "end\nlate := x + 1\nshow\nprint late\n"
+	case 2:
+		src = "x := 1\nc := true\nfunc f\n" + zzIndentLines(loop+"print \"after\" x\n", "    ") + "end\nf\nlate := x + 1\nshow\nprint late\n"
+	}
+	src += "func show\n    print \"show\" x c\nend\n"
+	p := &zzPlat{}
+	ev := NewEvaluator(p)
+	prog := zzMustParse(ev, src, "C10 loop exit")
+	if prog == nil {
+		return
+	}
+	zzSetNum(prog, 0, x)
+	zzSetBool(prog, 1, c)
+	err := ev.Eval(prog)
+	zzAssert(err == nil, "C10 loop exit: program runs")
+	if err != nil {
+		zzLog(src + err.Error())
+		return
+	}
+	// the lines after the loop: after <x>, show <x> <c>, <x+1>
+	n := len(p.trace)
+	X := zzN(x)
+	ok := n >= 3 && p.trace[n-1] == "print:"+zzN(x+1)+"\n" && p.trace[n-2] == "print:show "+X+" "+strconv.FormatBool(c)+"\n" && p.trace[n-3] == "print:after "+X+"\n"
+	if !ok {
+		zzLog("C10 loop exit:\n" + src + p.out())
+	}
+	zzAssert(ok, "C10 loop exit: however a loop is left, the variables its body declared are gone and the outer ones are visible again, also to functions called afterwards")
+	zzReach("loopexit-ok")
+	zzWitness("end")
+}
